@@ -162,9 +162,25 @@ def oracle(data, want_value=True):
     if not ok:
         return None                      # the reference VM rejects: outside the quantifier
     try:
-        module = Pickled.load(data).ast
+        pk = Pickled.load(data)
     except Exception:
-        return None                      # refused with an error: allowed
+        return None                      # refused by the parser: allowed
+    try:
+        module = pk.ast
+    except Exception as e1:
+        # refused with an error: allowed -- and the refusal is final: asked again, the same object must not
+        # hand out a program after all (one that leaves the refused operation out)
+        try:
+            again = pk.ast
+        except Exception:
+            return None
+        try:
+            src2 = ast.unparse(again)
+        except Exception:
+            src2 = "<does not unparse>"
+        return {"what": "decompilation was refused and then, asked again on the same object, succeeded: the "
+                        "operation fickling could not model is left out of the program",
+                "first_answer": f"{type(e1).__name__}: {e1}"[:200], "second_answer": src2[:400], "property": "C03"}
     try:
         src = ast.unparse(module)
     except RecursionError:
